@@ -106,7 +106,7 @@ def make_rewriter(name):
     return getattr(MT, name)()
 
 
-def run_pipeline(kind, calls, k, rewriter_name, flag, flush_after=()):
+def run_pipeline(kind, calls, k, rewriter_name, flag, flush_after=(), limit=2000):
     """calls: list of (argument value, result value); the logger is flushed (one batch per flush)
     after the calls whose index is in flush_after and at the end.
     Returns (rows, stub_text or None, stderr)."""
@@ -142,10 +142,10 @@ def run_pipeline(kind, calls, k, rewriter_name, flag, flush_after=()):
             fr.f_lasti = ret_off
             tracer(fr, "return", res)
     logger.flush()
-    rows = store.filter(M, None, 2000)
+    rows = store.filter(M, None, limit)
     strategy = {"--ignore-existing-annotations": S.IGNORE, "--omit-existing-annotations": S.OMIT}.get(flag, S.REPLICATE)
     out, err = Sink(), Sink()
-    args = argparse.Namespace(module_path=(M, None), limit=2000, verbose=True, config=PipeConfig(store, k, make_rewriter(rewriter_name)),
+    args = argparse.Namespace(module_path=(M, None), limit=limit, verbose=True, config=PipeConfig(store, k, make_rewriter(rewriter_name)),
                               disable_type_rewriting=(flag == "--disable-type-rewriting"), existing_annotation_strategy=strategy, sample_count=False)
     stub = cli.get_stub(args, out, err)
     conn.close()
